@@ -143,6 +143,74 @@ def aberration(check, prog, canon):
                       fail_detail='%s additionally overrides %s: the zero-aberration '
                       'case may no longer reduce to the parent' % (
                           c.name, sorted(extra | props)))
+    # the aberrated classes configure their parents with exactly what they were
+    # given: no option (quadrature size, interpolation settings, acceptance angle)
+    # may get another default on the aberrated side
+    qi = AC + '.__init__'
+    fdi = prog.func(qi)
+    iti = Interp(prog, max_depth=1, opaque=[MLF + 'MieLensCalculator.__init__'])
+    iti.analyze(qi)
+    base = [c for c in iti.calls if c['name'] == MLF + 'MieLensCalculator.__init__']
+    kwname = fdi.args.kwarg.arg if fdi.args.kwarg else None
+    ok = len(base) == 1 and kwname is not None
+    detail = 'no single call of the parent constructor'
+    if ok:
+        kws = dict(base[0]['kwargs'])
+        fwd = kws.pop('**', None)
+        named = {a.arg for a in fdi.args.args[1:]} - {'spherical_aberration'}
+        ok = fwd in (sym('**' + kwname), sym(kwname))
+        ok = ok and all(kws.get(k) == sym(k) for k in kws) and set(kws) <= named \
+            and len(base[0]['args']) == 1
+        detail = 'parent constructor receives %s' % (
+            [(k, show(v)[:60]) for k, v in base[0]['kwargs']],)
+    check.require(ok, 'V2-class-diff', 'AberratedMieLensCalculator.__init__',
+                  'forwards its options to MieLensCalculator unchanged', prog.loc(qi, fdi),
+                  fail_detail=detail + ': with all aberration coefficients zero the '
+                  'calculator is configured differently from the unaberrated one')
+    qa, qb = A + '.__init__', TH + 'mielens.MieLens.__init__'
+    fda = prog.func(qa)
+    ita = Interp(prog, max_depth=1, opaque=[qb])
+    ita.analyze(qa)
+    base = [c for c in ita.calls if c['name'] == qb]
+    ok = len(base) == 1
+    if ok:
+        names_b = [a.arg for a in prog.func(qb).args.args[1:]]
+        got = dict(zip(names_b, base[0]['args'][1:]))
+        got.update(dict(base[0]['kwargs']))
+        ok = all(v == sym(k) for k, v in got.items()) and \
+            set(got) == set(names_b) & {a.arg for a in fda.args.args}
+        # same defaults for the shared options
+        da = dict(zip([a.arg for a in fda.args.args][-len(fda.args.defaults):],
+                      [ast.dump(d) for d in fda.args.defaults]))
+        fdb = prog.func(qb)
+        db = dict(zip([a.arg for a in fdb.args.args][-len(fdb.args.defaults):],
+                      [ast.dump(d) for d in fdb.args.defaults]))
+        ok = ok and all(da.get(k) == db.get(k) for k in got)
+    check.require(ok, 'V2-class-diff', 'AberratedMieLens.__init__',
+                  'hands lens angle and accuracy options to MieLens unchanged, with the '
+                  'same defaults', prog.loc(qa, fda))
+    # ... and both theories build their calculator from the same arguments
+    def calc_slots(cq, cls):
+        qq = cq + '._create_calculator'
+        itc = Interp(prog, max_depth=1, inline_new=False)
+        r = itc.analyze(qq)
+        new = [x for x in subterms(r.ret) if x[0] == 'new' and x[1] == cls]
+        if len(new) != 1 or new[0][2]:
+            return None
+        return dict(new[0][3])
+    sa = calc_slots(A, AC)
+    sb = calc_slots(TH + 'mielens.MieLens', MLF + 'MieLensCalculator')
+    ok = sa is not None and sb is not None
+    if ok:
+        extra = {k: v for k, v in sa.items() if k not in sb}
+        ok = all(sa.get(k) == v for k, v in sb.items()) and \
+            set(extra) == {'spherical_aberration'} and \
+            extra['spherical_aberration'] == ('attr', sym('self'), 'spherical_aberration')
+    check.require(ok, 'V2-class-diff', 'AberratedMieLens._create_calculator',
+                  'same calculator arguments as MieLens plus the aberration coefficients',
+                  prog.loc(A + '._create_calculator', prog.func(A + '._create_calculator')),
+                  fail_detail='aberrated: %s; plain: %s' % (
+                      sorted(sa) if sa else None, sorted(sb) if sb else None))
     q = AC + '._calculate_phase'
     fd = prog.func(q)
     loc = prog.loc(q, fd)
